@@ -465,6 +465,48 @@ theorem invalid_tx_invalidates_block {env : Env ρ} (hE : EvmOk env) (hf fz : Wo
       rw [Nat.zero_add, processTxs_append_error pre m post limit (hf w) 0 hpre he]
       exact ⟨e, rfl⟩
 
+/-! ## receipts recorded by the fast-sync import path (`core.SetReceiptsData`) -/
+
+/-- **setReceiptsData_sum.** For the cumulative values of a valid block (non-decreasing uint64s) the per-transaction gas
+    that `SetReceiptsData` derives sums to the last cumulative value: Σ GasUsed = header.GasUsed on the fast-sync path too. -/
+theorem setReceiptsData_sum (prev : Nat) (cums : List Nat) (h : CumMonotone prev cums) :
+    prev + listSum (setReceiptsData_spec prev cums) = lastCum prev cums := by
+  induction cums generalizing prev with
+  | nil => simp [setReceiptsData_spec, listSum, lastCum]
+  | cons c cs ih =>
+    obtain ⟨h1, h2, h3⟩ := h
+    simp only [setReceiptsData_spec, listSum, lastCum]
+    have hd : (c + (uint64Max + 1) - prev) % (uint64Max + 1) = c - prev := by
+      have e : c + (uint64Max + 1) - prev = (c - prev) + (uint64Max + 1) := by omega
+      rw [e, Nat.add_mod_right]
+      exact Nat.mod_eq_of_lt (by omega)
+    rw [hd]
+    have := ih c h3
+    omega
+
+/-- **setReceiptsData_recovers_gas.** Fast sync recovers exactly what the full path recorded: for receipts whose cumulative
+    gas is the running total of their gas (the shape `cumulative_gas` proves for everything `Process` produces), the
+    differences of the cumulative values are the receipts' own `gasUsed`. -/
+theorem setReceiptsData_recovers_gas (used : Nat) (rs : List Receipt) (h : CumOk used rs)
+    (hb : ∀ r ∈ rs, r.cumulativeGasUsed ≤ uint64Max) :
+    setReceiptsData_spec used (rs.map (·.cumulativeGasUsed)) = rs.map (·.gasUsed) := by
+  induction rs generalizing used with
+  | nil => rfl
+  | cons r rs ih =>
+    obtain ⟨h1, h2⟩ := h
+    simp only [List.map_cons, setReceiptsData_spec]
+    have hr := hb r List.mem_cons_self
+    have hd : (r.cumulativeGasUsed + (uint64Max + 1) - used) % (uint64Max + 1) = r.gasUsed := by
+      have e : r.cumulativeGasUsed + (uint64Max + 1) - used = r.gasUsed + (uint64Max + 1) := by omega
+      rw [e, Nat.add_mod_right]
+      exact Nat.mod_eq_of_lt (by omega)
+    rw [hd, ih r.cumulativeGasUsed h2 (fun x hx => hb x (List.mem_cons_of_mem _ hx))]
+
+example : setReceiptsData_spec 0 [21000, 62220, 83249] = [21000, 41220, 21029] := by decide
+example : listSum (setReceiptsData_spec 0 [21000, 62220, 83249]) = 83249 := by decide
+-- the running-total-of-cumulatives derivation is NOT this function (third receipt 29 instead of 21029, then uint64 underflow)
+example : setReceiptsData_spec 0 [21000, 62220, 83249] ≠ [21000, 41220, 83249 - (21000 + 62220)] := by decide
+
 /-! ## Impl ⊑ Spec -/
 
 /-- what an observer of the model run sees (the same record the driver builds from the Go run). -/
